@@ -412,6 +412,12 @@ impl<'a> Run<'a> {
                 }
                 PollOut::Item(Out::Vec(Vec::new()))
             }
+            PollOut::Item(Out::PTok(t)) => {
+                if let Some((_k, c, _)) = self.take_ptok(t, "poll_next") {
+                    self.note_yield(c, "poll_next");
+                }
+                PollOut::Item(Out::Vec(Vec::new()))
+            }
             PollOut::Item(Out::Res(r)) => {
                 match r {
                     Ok(t) => {
@@ -951,7 +957,7 @@ impl<'a> Run<'a> {
                             format!("C15/push-panic/{}", short(&msg)),
                             format!("push of child {id} panicked ({msg}) - expected accept = {expect_accept}, try flavour = {is_try}"),
                         );
-                    } else if x.children[id as usize].dropped != 1 {
+                    } else if x.children[id as usize].dropped != 1 && x.children[id as usize].tracked() {
                         let d = x.children[id as usize].dropped;
                         x.violate(
                             p(6) | p(15),
